@@ -29,6 +29,10 @@ pub struct Case {
     /// every module additionally defines a type and a value of the same name (`Shared`, `shared`)
     #[serde(default)]
     pub shared: bool,
+    /// every module defines `Pct-X ::= INTEGER (0..100)` and `half-x Pct-X ::= 50`; a module with imports also imports
+    /// `half-y` (the value only, not its governing type) from its first import and uses it in a constraint
+    #[serde(default)]
+    pub assoc: bool,
 }
 
 fn snake(name: &str) -> String {
@@ -70,6 +74,27 @@ pub fn module_text_shared(mods: &[Mod], i: usize, shared: bool) -> String {
     } else {
         t
     }
+}
+
+fn half_name(m: &str) -> String {
+    format!("half-{}", m.to_lowercase())
+}
+
+/// the `assoc` variant: an imported value whose governing type is not imported (the compiler has to add that
+/// type to the importing module's use line, and to no other module's)
+pub fn module_text_variant(mods: &[Mod], i: usize, shared: bool, assoc: bool) -> String {
+    let mut t = module_text_shared(mods, i, shared);
+    if assoc {
+        let x = &mods[i].name;
+        let mut extra = format!("Pct-{x} ::= INTEGER (0..100)\n{} Pct-{x} ::= 50\n", half_name(x));
+        if let Some(j) = mods[i].imports.first() {
+            let y = &mods[*j].name;
+            t = t.replacen(&format!(" {} FROM {y}", val_name(y)), &format!(" {}, {} FROM {y}", val_name(y), half_name(y)), 1);
+            extra += &format!("I{x} ::= INTEGER (0..{})\n", half_name(y));
+        }
+        t = t.replace("END\n", &format!("{extra}END\n"));
+    }
+    t
 }
 
 pub fn module_text(mods: &[Mod], i: usize) -> String {
@@ -194,14 +219,15 @@ impl Prop for C12 {
         let mut push_set = |mods: Vec<Mod>, out: &mut Vec<Case>, dups: bool| {
             let n = mods.len();
             for o in orders(n, &mods, dups) {
-                out.push(Case { mods: mods.clone(), order: o.clone(), single_source: false, wildcard: false, shared: false });
+                out.push(Case { mods: mods.clone(), order: o.clone(), single_source: false, wildcard: false, shared: false, assoc: false });
                 if o.len() == n && n == 2 {
-                    out.push(Case { mods: mods.clone(), order: o.clone(), single_source: false, wildcard: false, shared: true });
+                    out.push(Case { mods: mods.clone(), order: o.clone(), single_source: false, wildcard: false, shared: true, assoc: false });
+                    out.push(Case { mods: mods.clone(), order: o.clone(), single_source: false, wildcard: false, shared: false, assoc: true });
                 }
                 if o.len() == n {
-                    out.push(Case { mods: mods.clone(), order: o.clone(), single_source: true, wildcard: false, shared: false });
+                    out.push(Case { mods: mods.clone(), order: o.clone(), single_source: true, wildcard: false, shared: false, assoc: false });
                     if o[0] == 0 {
-                        out.push(Case { mods: mods.clone(), order: o, single_source: false, wildcard: true, shared: false });
+                        out.push(Case { mods: mods.clone(), order: o, single_source: false, wildcard: true, shared: false, assoc: false });
                     }
                 }
             }
@@ -254,7 +280,7 @@ impl Prop for C12 {
     }
     fn check(&self, c: &Case) -> CaseResult {
         let cfg = Cfg { wildcard: c.wildcard, ..Default::default() };
-        let texts: Vec<String> = (0..c.mods.len()).map(|i| module_text_shared(&c.mods, i, c.shared)).collect();
+        let texts: Vec<String> = (0..c.mods.len()).map(|i| module_text_variant(&c.mods, i, c.shared, c.assoc)).collect();
         let sources: Vec<String> = if c.single_source { vec![c.order.iter().map(|i| texts[*i].clone()).collect::<Vec<_>>().join("\n")] } else { c.order.iter().map(|i| texts[*i].clone()).collect() };
         let joint = compile_rasn(&sources, &cfg);
         let dup = {
@@ -325,7 +351,14 @@ impl Prop for C12 {
             let uses: Vec<String> = jm.uses().into_iter().filter(|u| u.starts_with("super::")).collect();
             let exp: Vec<String> = m.imports.iter().map(|j| {
                 let y = &c.mods[*j].name;
-                if c.wildcard { format!("super::{}::{{*}}", snake(y)) } else { format!("super::{}::{{{},{}}}", snake(y), ty_rust(y), val_rust(y)) }
+                if c.wildcard {
+                    format!("super::{}::{{*}}", snake(y))
+                } else if c.assoc && Some(j) == m.imports.first() {
+                    // + the value imported alone and, added by the compiler, its governing type
+                    format!("super::{}::{{{},{},HALF_{},Pct{}}}", snake(y), ty_rust(y), val_rust(y), y.to_uppercase().replace('-', "_"), title(y))
+                } else {
+                    format!("super::{}::{{{},{}}}", snake(y), ty_rust(y), val_rust(y))
+                }
             }).collect();
             if uses != exp {
                 discs.push(Disc::new(format!("module|use-line|wildcard={}|n={}", c.wildcard, m.imports.len().min(2)), format!("module {}: expected {exp:?} got {uses:?}\n{src_dump}\n--- generated ---\n{jg}", m.name)));
